@@ -163,6 +163,16 @@ func runHelpers(res *core.CaseResult, c core.CaseDesc) {
 	runAsync(res, check)
 	runAskBusy(res, r, check)
 	runSyncBusy(res, r, check)
+	// typed args with a log tag on an unexported field
+	type taggedArgs struct {
+		Name   string `log:"name"`
+		secret string `log:"secret"`
+		Count  int    `log:"count"`
+	}
+	var logMap map[string]string
+	if guarded(res, "ArgsToLogMap/unexported-field", func() { logMap = amhelp.ArgsToLogMap(&taggedArgs{Name: "n", secret: "s", Count: 3}, 0) }) {
+		check("ArgsToLogMap", logMap["name"] == "n", "ArgsToLogMap of a struct with Name=n gives %v", logMap)
+	}
 	// disposed machine: the blocking helpers must still return
 	md, _ := helperMach()
 	md.Dispose()
